@@ -214,6 +214,8 @@ pub trait Sampler: Send + Sync {
     fn getters(&self) -> Outcome;
     fn dimension(&self) -> usize;
     fn image(&self) -> Tree;
+    /// what a format with is_human_readable() == false would write
+    fn image_binary(&self) -> Tree;
     fn clone_box(&self) -> Box<dyn Sampler>;
     fn to_json(&self) -> Result<String, String>;
     fn to_json_pretty(&self) -> Result<String, String>;
@@ -313,6 +315,9 @@ impl<const D: usize> Sampler for SampleGenerator<D> {
     }
     fn image(&self) -> Tree {
         store::to_tree(self).expect("SimStore cannot represent the sampler")
+    }
+    fn image_binary(&self) -> Tree {
+        store::to_tree_binary(self).expect("SimStore cannot represent the sampler")
     }
     fn clone_box(&self) -> Box<dyn Sampler> {
         Box::new(self.clone())
